@@ -89,7 +89,20 @@ func txCaseLine(c *txCase) string {
 	for _, r := range c.regsC {
 		parts = append(parts, txRegLine(r))
 	}
-	parts = append(parts, fmt.Sprint(c.txl), "T", fmt.Sprint(len(c.txs)))
+	parts = append(parts, fmt.Sprint(c.txl))
+	if len(c.ixP) > 0 || len(c.ixC) > 0 {
+		parts = append(parts, "I")
+		for _, regs := range [][][]txIxVeto{c.ixP, c.ixC} {
+			parts = append(parts, fmt.Sprint(len(regs)))
+			for _, vs := range regs {
+				parts = append(parts, fmt.Sprint(len(vs)))
+				for _, v := range vs {
+					parts = append(parts, fmt.Sprintf("%c %s", v.stage, txWire(v.id)))
+				}
+			}
+		}
+	}
+	parts = append(parts, "T", fmt.Sprint(len(c.txs)))
 	for _, tx := range c.txs {
 		reuse := 0
 		if tx.reuse {
